@@ -395,8 +395,25 @@ func ruleLenAccount(c *Ctx, r *Rep, tier string) {
 				into["1"] += coef * k
 			}
 		case *ssa.Convert:
+			// a length squeezed through fewer than 32 bits is the length modulo
+			// 2^16 (2^8): not an affine term any more (n_cigar_op is a 16 bit
+			// field, but the byte count 4·n is not)
+			if _, isC := x.X.(*ssa.Const); !isC {
+				if b, ok := x.Type().Underlying().(*types.Basic); ok {
+					if w, _, ok := basicWidth(b); ok && w < 32 {
+						into[fmt.Sprintf("?truncated to %d bits", w)] += coef
+						return
+					}
+				}
+			}
 			parse(x.X, coef, into)
 		case *ssa.BinOp:
+			if b, ok := x.Type().Underlying().(*types.Basic); ok {
+				if w, _, ok := basicWidth(b); ok && w < 32 {
+					into[fmt.Sprintf("?computed in %d bits", w)] += coef
+					return
+				}
+			}
 			switch x.Op {
 			case token.ADD:
 				parse(x.X, coef, into)
